@@ -7,8 +7,8 @@ the step formats agree with the selector syntax, and unmatched selectors raise.
 """
 import ast
 
-from .. import regexast
-from ..astutil import body_raises, call_simple_name, exc_name, guard_chain, names_in, pm, short
+from .. import regexast, regexnfa
+from ..astutil import body_raises, call_simple_name, exc_name, guard_chain, if_raising, is_not, names_in, pm, short
 from ..cfg import call_name, cfg_of, node_calls
 from ..loader import AnalysisError, FunctionInfo, body_walk, norm, walk_no_nested
 from ..report import key
@@ -34,6 +34,7 @@ def run(ctx):
     rule_every_function(ctx)
     rule_syntax_agreement(ctx)
     rule_reject(ctx)
+    rule_descends(ctx)
 
 
 def _bool_uses(node, name):
@@ -58,6 +59,13 @@ def _bool_uses(node, name):
     return out
 
 
+def enclosing_if(node):
+    p = getattr(node, "parent", None)
+    while p is not None and not isinstance(p, (ast.If, ast.FunctionDef)):
+        p = getattr(p, "parent", None)
+    return p if isinstance(p, ast.If) else None
+
+
 def rule_truthiness(ctx, rule_id="C08.truthiness"):
     run = ctx.run
     prog = ctx.prog
@@ -75,6 +83,34 @@ def rule_truthiness(ctx, rule_id="C08.truthiness"):
         for s in loop.body:
             uses += _bool_uses(s, vname)
         c = key(fi.module.relpath, fi.qualname, "value-in-boolean-context")
+        # the loop may stop early only on a match: every other path string must still be compared
+        jn = None
+        for s_ in loop.body:
+            for x in walk_no_nested(s_):
+                if isinstance(x, ast.Assign) and len(x.targets) == 1 and isinstance(x.targets[0], ast.Name) \
+                        and isinstance(x.value, ast.Call) and isinstance(x.value.func, ast.Attribute) and x.value.func.attr == "join":
+                    jn = x.targets[0].id
+        sel = fi.params[1]
+        c2 = key(fi.module.relpath, fi.qualname, "stops-only-on-match")
+        early = []
+        for s_ in loop.body:
+            for x in walk_no_nested(s_):
+                if isinstance(x, (ast.Return, ast.Break)):
+                    gs = guard_chain(x, stop=loop)
+                    on_match = any(pol and isinstance(t, ast.Compare) and len(t.ops) == 1 and isinstance(t.ops[0], ast.Eq)
+                                   and {norm(t.left), norm(t.comparators[0])} <= {jn, sel, "'.'.join(%s)" % norm(loop.target.elts[0])}
+                                   and sel in (norm(t.left), norm(t.comparators[0]))
+                                   for t, pol, _ in gs)
+                    if not on_match:
+                        early.append(x)
+        if early:
+            run.violation(rule_id, c2, "the walk over the object's paths stops before every path has been compared with the "
+                          "selector (the paths are not produced in string order: '[10]' sorts before '[9]', 'a-b' before 'a.b'), "
+                          "so an existing property is reported as not addressable", file=fi.module.relpath,
+                          line=early[0].lineno, function=fi.qualname, expected="leave the loop only under `path == selector`",
+                          found=short(enclosing_if(early[0]) or early[0], 160))
+        else:
+            run.ok(rule_id, c2)
         if uses:
             run.violation(rule_id, c, "the stored value decides whether a selector matches: selectors addressing false, 0, '' or "
                           "an empty container are rejected although the property exists", file=fi.module.relpath,
@@ -230,39 +266,47 @@ def rule_every_function(ctx, rule_id="C08.every-function"):
               function=sm.qualname, expected="clear_markings + add_markings", found=sorted(x for x in called if x))
 
 
-def rule_syntax_agreement(ctx):
+def rule_syntax_agreement(ctx, rule_id="C08.syntax-agreement", language_only=False):
     run = ctx.run
     prog = ctx.prog
-    R = "C08.syntax-agreement"
+    R = rule_id
     fi = prog.func(MU + "::iterpath")
     ee = prog.func(MU + "::_evaluate_expression")
     ev = Evaluator(prog, allow_dyn=True)
-    pm = prog.module("stix2.properties")
-    b = pm.scope.lookup_local("SELECTOR_REGEX")
+    pmod = prog.module("stix2.properties")
+    b = pmod.scope.lookup_local("SELECTOR_REGEX")
     if b is None:
         raise AnalysisError("anchor missing: stix2.properties.SELECTOR_REGEX")
-    rx = ev.eval(b.value, pm.scope)
+    rx = ev.eval(b.value, pmod.scope)
     if not isinstance(rx, Regex):
         raise AnalysisError("SELECTOR_REGEX is not a compiled literal regex")
     pat = rx.pattern
-    # the regex must admit: name steps joined by '.', list steps of the form [digits]
-    import re._parser as sp
-    import re._constants as sc
-    tree = sp.parse(pat)
-    lits = set()
-
-    def collect(items):
-        for op, av in items:
-            if op is sc.LITERAL:
-                lits.add(chr(av))
-            elif op is sc.SUBPATTERN:
-                collect(av[-1])
-            elif op is sc.BRANCH:
-                for a in av[1]:
-                    collect(a)
-            elif op in (sc.MAX_REPEAT, sc.MIN_REPEAT):
-                collect(av[2])
-    collect(tree)
+    # how the regex is applied decides the language it admits
+    sp_clean = prog.func("stix2.properties::SelectorProperty.clean")
+    mode = None
+    for c in body_walk(sp_clean.node):
+        if isinstance(c, ast.Call) and isinstance(c.func, ast.Attribute) and c.func.attr in ("match", "fullmatch", "search"):
+            d = prog.deref(prog.resolve_expr(sp_clean.scope, c.func.value))
+            if d is b or (isinstance(c.func.value, ast.Name) and c.func.value.id == "SELECTOR_REGEX"):
+                mode = c.func.attr
+                gs = [x for x in if_raising(sp_clean) if c in list(ast.walk(x[0].test))]
+                if not (gs and is_not(gs[0][0].test)):
+                    mode = None
+    if mode is None:
+        raise AnalysisError("SelectorProperty.clean: `if not SELECTOR_REGEX.<match>(value): raise` not found")
+    import json as _json
+    import os as _os
+    ref = _json.load(open(_os.path.join(_os.path.dirname(_os.path.dirname(_os.path.dirname(__file__))), "spec", "selectors.json")))
+    word = regexnfa.pattern_included(ref["path_grammar"], pat, 0, rx.flags, "fullmatch", mode)
+    run.check(word is None, R, key("stix2/properties.py", "SELECTOR_REGEX", "admits-every-path"),
+              "the selector syntax refuses a path that can exist in an object (language inclusion of the path grammar in "
+              "SELECTOR_REGEX fails): a granular marking addressing it cannot be built or parsed", file="stix2/properties.py",
+              line=b.lineno, function="SELECTOR_REGEX", expected="L(%s) is a subset of L(SELECTOR_REGEX)" % ref["path_grammar"],
+              found="shortest refused path: %r%s" % (word if word is None or len(word) < 60 else word[:57] + "...",
+                                                     "" if word is None else " (%d characters)" % len(word)))
+    lits = set(c for c in ".[]" if c in pat)
+    if language_only:
+        return
     # separator used by the walk
     joins = [c for c in body_walk(ee.node) if isinstance(c, ast.Call) and isinstance(c.func, ast.Attribute)
              and c.func.attr == "join" and isinstance(c.func.value, ast.Constant)]
@@ -318,6 +362,12 @@ def rule_reject(ctx):
               path=g.describe_path(path))
     if loops:
         lp = loops[0].ast
+        early = [x for s_ in lp.body for x in walk_no_nested(s_) if isinstance(x, (ast.Return, ast.Break, ast.Continue))]
+        run.check(not early, R, key(fi.module.relpath, fi.qualname, "loop-runs-to-exhaustion"),
+                  "validate() leaves the loop over the selectors before all of them were tested: a list whose first selector is "
+                  "valid is accepted whatever the others address", file=fi.module.relpath,
+                  line=early[0].lineno if early else lp.lineno, function=fi.qualname,
+                  expected="the only normal exit of the loop is its exhaustion", found=short(early[0]) if early else None)
         okr = False
         for s in lp.body:
             if isinstance(s, ast.If) and isinstance(s.test, ast.UnaryOp) and isinstance(s.test.op, ast.Not) \
@@ -328,3 +378,53 @@ def rule_reject(ctx):
                   "an unmatched selector does not raise InvalidSelectorError", file=fi.module.relpath, line=lp.lineno,
                   function=fi.qualname, expected="if not _validate_selector(obj, s): raise InvalidSelectorError", found=short(lp, 200))
     # selector syntax is enforced by SelectorProperty on GranularMarking.selectors (both versions): C02.table has the slot
+
+
+def rule_descends(ctx, rule_id="C08.descends-into-objects"):
+    """Embedded objects (external references, kill chain phases, extensions, granular markings themselves) are stored as
+    _STIXBase instances -- mappings, but not dicts.  The walk must descend into every mapping value and every mapping
+    element of a list, or no selector can address a property inside them."""
+    import json as _json
+    import os as _os
+    run = ctx.run
+    prog = ctx.prog
+    fi = prog.func(MU + "::iterpath")
+    base = prog.cls("stix2.base::_STIXBase")
+    ref = _json.load(open(_os.path.join(_os.path.dirname(_os.path.dirname(_os.path.dirname(__file__))), "spec", "selectors.json")))
+    ok_ext = set(ref["mapping_types"])
+    n = 0
+    for c in body_walk(fi.node):
+        if not (isinstance(c, ast.Call) and call_simple_name(c) == "iterpath" and c.args and isinstance(c.args[0], ast.Name)):
+            continue
+        d = prog.deref(prog.resolve_expr(fi.scope, c.func))
+        if d is not fi:
+            continue
+        n += 1
+        arg = c.args[0].id
+        tests = [t for t, pol, _ in guard_chain(c) if pol and isinstance(t, ast.Call) and call_simple_name(t) == "isinstance"
+                 and len(t.args) == 2 and norm(t.args[0]) == arg]
+        ck = key(fi.module.relpath, fi.qualname, "descent-accepts-mappings:%d" % n)
+        if not tests:
+            # an unguarded descent accepts everything that has .items(): fine for this rule
+            run.ok(rule_id, ck)
+            continue
+        T = tests[-1].args[1]
+        elts = T.elts if isinstance(T, ast.Tuple) else [T]
+        accepted = False
+        names = []
+        for e in elts:
+            dd = prog.deref(prog.resolve_expr(fi.scope, e))
+            dotted_ = getattr(dd, "dotted", None)
+            names.append(dotted_ or norm(e))
+            if dotted_ in ok_ext or (dotted_ or "").endswith(".Mapping"):
+                accepted = True
+            elif dd is not None and dd in base.mro:
+                accepted = True
+        run.check(accepted, rule_id, ck,
+                  "the selector walk descends only into %s: embedded objects and extensions are stored as _STIXBase mappings, "
+                  "not dicts, so no selector can address a property inside them (e.g. external_references.[0].source_name, "
+                  "extensions.<name>.<property>)" % "/".join(names), file=fi.module.relpath, line=tests[-1].lineno,
+                  function=fi.qualname, expected="isinstance(<value>, collections.abc.Mapping) (or a test _STIXBase satisfies)",
+                  found=short(tests[-1]))
+    if n < 2:
+        raise AnalysisError("iterpath: fewer than two recursive descents found (mapping value, mapping element of a list)")
